@@ -287,16 +287,25 @@ Proof.
   apply (@solid_body_steady ps psOps ps_ring psH_div_def ps_dlon ps_dmu ps_X ps_a psH_inv_a psH_inv_c2 psH_inv_two
            psH_dlon_add psH_dmu_add psH_dlon_leib psH_dmu_leib psH_commute psH_dlon_mu psH_dmu_mu psH_dlon_a psH_dmu_a
            ps_cfg (qq (1#2)) (qq 3) (qq (3#7)) (qq 2) (qq (1#100)) (qq 1) 0 (qq (-(1#2)))
-           (fun _ => qq 1) (fun k => qq (inject_Z (250 + Z.of_nat k))) (fun _ => 0)); try (intros; apply ps_cst_c).
-  - apply (cst_0 ps_ring ps_dlon ps_dmu psH_dlon_add psH_dmu_add).
+           (fun _ => qq 1) (fun k => qq (inject_Z (250 + Z.of_nat k))) (fun _ => 0)).
+  - exact (ps_cst_c _).
+  - exact (ps_cst_c _).
+  - exact (ps_cst_c _).
+  - exact (ps_cst_c _).
+  - exact (ps_cst_c _).
+  - exact (ps_cst_c _).
+  - exact (ps_cst_c (Q2Qc (2#7))).
   - change (cst ps_dlon ps_dmu (ps_c (Q2Qc (3#7)) / ps_c (Q2Qc (2#7)))). rewrite ps_div_c. apply ps_cst_c.
-  - intros k. apply (cst_0 ps_ring ps_dlon ps_dmu psH_dlon_add psH_dmu_add).
+  - intros i. exact (ps_cst_c _).
+  - intros k. exact (ps_cst_c _).
+  - intros k. exact (ps_cst_c _).
+  - intros k. exact (ps_cst_c _).
   - intros k. cbv beta.
     rewrite (sumn_zero_ring ps_ring) by (intros; cbv beta; apply ps_mul_0_r).
     transitivity (qq 1 * (qq 1 + (1 + 1) * ps_a * qq (1#2)) + (1 + 1) * (qq 3 * qq (-(1#2)))); [unfold two; ring|].
     change (ps_add (ps_mul (qq 1) (ps_add (qq 1) (ps_mul (ps_mul (ps_add (ps_c (@f1 Qc QcOps)) (ps_c (@f1 Qc QcOps))) (ps_c (@f1 Qc QcOps + @f1 Qc QcOps))) (qq (1#2)))))
                    (ps_mul (ps_add (ps_c (@f1 Qc QcOps)) (ps_c (@f1 Qc QcOps))) (ps_mul (qq 3) (qq (-(1#2))))) = ps_c (@f0 Qc QcOps)).
-    unfold qq. repeat (rewrite ps_c_add || rewrite ps_c_mul). f_equal. apply Qc_is_canon. vm_compute. reflexivity.
+    unfold qq. repeat (rewrite ps_c_add || rewrite ps_c_mul). f_equal; try (apply Qc_is_canon; vm_compute; reflexivity).
   - intros k. apply ps_mul_0_r.
 Qed.
 
@@ -310,8 +319,7 @@ Theorem C05_sw_solid_body_series :
 Proof.
   apply (@sw_solid_body_one_layer ps psOps ps_ring psH_div_def ps_dlon ps_dmu ps_X ps_a psH_inv_a psH_inv_c2 psH_inv_two
            psH_dlon_add psH_dmu_add psH_dlon_leib psH_dmu_leib psH_commute psH_dlon_mu psH_dmu_mu psH_dlon_a psH_dmu_a);
-    try (intros; apply ps_cst_c).
-  intros i. apply (zon_cst ps_dlon ps_dmu). apply ps_cst_c.
+    try (intros; first [apply ps_cst_c | reflexivity]).
 Qed.
 
 (** * over the reals *)
